@@ -379,20 +379,6 @@ func checkSessionsInst(e *Env, sp *evSpec, l *evLedger, prop string, inst int) s
 			if !er.Accepted || !er.Late || er.IdleRisk || er.ID == "flush" || mergedKeys[er.KeyS] {
 				continue
 			}
-			// whether or not the session's first delivery had been observed when the row arrived
-			// (it may have been collected and still be on its way out): a row is never reported in
-			// a session whose end+ALLOWEDLATENESS the watermark had passed on its arrival
-			expiredSeen := false
-			for _, s := range rowSeen[er.ID] {
-				if s.g == er.KeyS && er.WM >= s.r.WE+sp.AL {
-					e.Violate("C02/expired-late-row-changed-result", "session/any-delivery", "row %s ts=%s of key %s arrived when the watermark %s had passed end+ALLOWEDLATENESS (%s) of session [%s,%s), yet it is reported in it", er.ID, fmtNS(er.TS), er.KeyS, fmtNS(er.WM), fmtNS(s.r.WE+sp.AL), fmtNS(s.r.WS), fmtNS(s.r.WE))
-					expiredSeen = true
-					break
-				}
-			}
-			if expiredSeen {
-				continue
-			}
 			// sessions of the row's key delivered before the row was emitted
 			var target *sess
 			for _, s := range all {
@@ -400,6 +386,22 @@ func checkSessionsInst(e *Env, sp *evSpec, l *evLedger, prop string, inst int) s
 					if target == nil || s.seq > target.seq {
 						target = s
 					}
+				}
+			}
+			if target == nil || er.WM < target.r.WE+sp.AL {
+				// whether or not the session's first delivery had been observed when the row arrived
+				// (it may have been collected and still be on its way out): a row is never reported in
+				// a session whose end+ALLOWEDLATENESS the watermark had passed on its arrival
+				expiredSeen := false
+				for _, s := range rowSeen[er.ID] {
+					if s.g == er.KeyS && er.WM >= s.r.WE+sp.AL {
+						e.Violate("C02/expired-late-row-changed-result", "session/any-delivery", "row %s ts=%s of key %s arrived when the watermark %s had passed end+ALLOWEDLATENESS (%s) of session [%s,%s), yet it is reported in it", er.ID, fmtNS(er.TS), er.KeyS, fmtNS(er.WM), fmtNS(s.r.WE+sp.AL), fmtNS(s.r.WS), fmtNS(s.r.WE))
+						expiredSeen = true
+						break
+					}
+				}
+				if expiredSeen {
+					continue
 				}
 			}
 			if target == nil {
